@@ -5,7 +5,7 @@ x rule violations x every position where the rule can be violated. One violation
 accepted. Executed through the real LoadPackage + validatePackage in-process and, for one representative per
 (rule, position class), through the real CLI."""
 import itertools, json, os, re, shutil
-from multiprocessing import Pool
+from build import Pool
 
 import build
 from evidence import Check
